@@ -216,6 +216,9 @@ func checkID(ctx *pbt.Ctx, c IDCase) error {
 	ctx.Labelf("paid-enough(actual)=%v", ok)
 	ctx.Label("rel=" + c.Rel)
 	ctx.Label(feeTagLabel(c.Quote))
+	if sh := gen.C10OutpointShape(m.In); sh != "" {
+		ctx.Label(sh)
+	}
 	if two63 := new(big.Int).Lsh(big.NewInt(1), 63); inSum.Cmp(two63) >= 0 || outSum.Cmp(two63) >= 0 {
 		switch {
 		case inSum.Cmp(outSum) < 0:
@@ -393,24 +396,7 @@ func feeFits(sz ref.FeeSizes, q ref.FeeQuote) bool {
 // genUnitWide draws a fee unit with numbers from the upper part of the int range, as a quote
 // that arrives as JSON may carry them: around 2^53 (the last integer a float64 counts exactly),
 // 2^54, 2^55, 2^62 and the largest int, numerator and denominator a few units apart.
-func genUnitWide(t *rapid.T, label string) ref.FeeUnit {
-	base := rapid.SampledFrom([]int{1 << 53, 1 << 53, 1 << 53, 1 << 54, 1 << 55, 1 << 62, 1<<63 - 1}).Draw(t, label+"_base")
-	near := func(l string) int {
-		d := rapid.IntRange(-3, 3).Draw(t, l)
-		if base == 1<<63-1 && d > 0 {
-			d = -d
-		}
-		return base + d
-	}
-	switch rapid.IntRange(0, 3).Draw(t, label+"_wk") {
-	case 0, 1: // a rate next to 1 sat/byte written with huge numbers
-		return ref.FeeUnit{Sat: near(label + "_ds"), Bytes: near(label + "_db")}
-	case 2: // a tiny rate: few satoshis per a huge number of bytes
-		return ref.FeeUnit{Sat: rapid.IntRange(0, 5000).Draw(t, label+"_sat"), Bytes: near(label + "_db")}
-	}
-	// a huge numerator over a large denominator
-	return ref.FeeUnit{Sat: near(label + "_ds"), Bytes: 1<<40 + rapid.IntRange(-3, 3).Draw(t, label+"_db40")}
-}
+func genUnitWide(t *rapid.T, label string) ref.FeeUnit { return gen.C10UnitWide(t, label) }
 
 // genQuoteWide is genQuote, with one or both mining rates written with huge numbers in about one
 // quote in ten; such quotes arrive through JSON more often than not.
@@ -555,6 +541,10 @@ func genDataOut(t *rapid.T, c *IDCase) ref.Out {
 		c.Pad = append(c.Pad, 0)
 	}
 	c.Pad = append(c.Pad, pad)
+	if pad == 0 && rapid.IntRange(0, 3).Draw(t, "template_payload") == 2 {
+		// a payload of pushes that start with opcode-valued bytes (a payload is a free field)
+		return ref.Out{Script: append(pre, gen.C10DataPayload(t, "tpl")...)}
+	}
 	return ref.Out{Script: append(pre, gen.FillBytes(t, n, "payload")...)}
 }
 
@@ -623,6 +613,8 @@ func genIDCase(t *rapid.T) IDCase {
 		}
 		c.Tx.In = append(c.Tx.In, in)
 	}
+	c.Tx.In = gen.C10SpecialOutpoints(t, c.Tx.In)
+	nin = len(c.Tx.In)
 	nout := rapid.IntRange(0, 6).Draw(t, "nout")
 	if nin == 0 && nout == 0 && c.Tx.LockTime == 0xef000000 {
 		c.Tx.LockTime = 0
@@ -993,6 +985,10 @@ func genSignCase(t *rapid.T) SignCase {
 		c.Presigned = append(c.Presigned, partial && rapid.Bool().Draw(t, "pre"))
 		c.Tx.In = append(c.Tx.In, ref.In{TxID: gen.Bytes(t, 32, "txid"), Vout: gen.U32(t, "vout"), Seq: 0xffffffff, PrevSats: rapid.Uint64Range(0, 100000000).Draw(t, "sats")})
 		c.Forms = append(c.Forms, []int{0, 0, 1, 2}[rapid.IntRange(0, 3).Draw(t, "keyform")])
+	}
+	if c.Tx.In = gen.C10SpecialOutpoints(t, c.Tx.In); len(c.Tx.In) < n {
+		n = len(c.Tx.In)
+		c.Keys, c.Presigned, c.Forms = c.Keys[:n], c.Presigned[:n], c.Forms[:n]
 	}
 	nout := rapid.IntRange(0, 3).Draw(t, "nout")
 	for i := 0; i < nout; i++ {
